@@ -245,11 +245,68 @@ def d6_configured_timeout_applied(ctx):
     ctx.CONST("D6", "srtla_core::config_snapshot::CONN_TIMEOUT_MS", 5000)
 
 
-RULES = [d1_who_tears_down, d2_liveness_predicate, d3_retry_spacing, d4_clean_rejoin, d5_survivors, d6_configured_timeout_applied]
+def d7_backoff_does_not_accumulate(ctx):
+    """Necessary for 'connected again within 30 s once the path delivers': while the socket can be re-created, the retry
+    gap must stay short.  A successful reconnect_uplink leaves reconnect_failure_count == 0, so the next retry is due after
+    backoff_delay() = 5000 ms; the count (and the back-off up to 120 s) grows only across failed socket re-creations."""
+    ru = ctx.fn(RUC, "D7")
+    if not ru:
+        return
+    cfg = ctx.cfg(ru)
+    fa = ctx.fa(ru)
+    FC = (RS, "reconnect_failure_count")
+    zeroing = []
+    for (bb, t) in ru.calls():
+        f = t["f"]
+        if "id" not in f:
+            continue
+        for cid in ctx.eff._callee_ids(f):
+            g = ctx.w.fns[cid]
+            if g.kind == "coroutine" or FC not in ctx.eff.W(cid):
+                continue
+            ai = AbsInt(ctx.w)
+            try:
+                ai.run(g, Entry())
+            except Exception:
+                continue
+            cells = [c for c in ai.exit_mem if c != ("$facts",) and c[0] == ai.top_frame and c[2] and c[2][-1] == ("f", "reconnect_failure_count")]
+            vals = [ai.exit_mem[c] for c in cells]
+            if vals and all(isinstance(v, Num) and v.lo == v.hi == 0 for v in vals):
+                zeroing.append((bb, g.stable))
+    oks = []
+    for bi, blk in enumerate(ru.blocks):
+        if blk["cleanup"]:
+            continue
+        for si, s_ in enumerate(blk["stmts"]):
+            if s_["k"] == "assign" and s_["p"]["l"] == 0 and not s_["p"]["proj"] and s_["rv"]["k"] == "agg" and s_["rv"].get("vn") == "Ok":
+                oks.append(bi)
+    ok = bool(oks) and bool(zeroing) and all(any(cfg.dominates(zb, ob) for (zb, _n) in zeroing) for ob in oks)
+    # nothing after the reset bumps the count again
+    if ok:
+        last = max(zb for (zb, _n) in zeroing if all(cfg.dominates(zb, ob) for ob in oks)) if any(all(cfg.dominates(zb, ob) for ob in oks) for (zb, _n) in zeroing) else None
+        if last is not None:
+            after = cfg.reach_strict(last)
+            for (bb, t) in ru.calls():
+                if bb in after and "id" in t["f"]:
+                    for cid in ctx.eff._callee_ids(t["f"]):
+                        if FC in ctx.eff.W(cid) and not any(n == ctx.w.fns[cid].stable for (_b, n) in zeroing):
+                            ok = False
+    ctx.chk.ob("D7", "a successful socket re-creation resets the back-off (failure count 0 => next retry after 5000 ms), so the retry gap cannot grow "
+               "towards 120 s while the local side is able to reconnect", ok,
+               "zeroing calls on the success path: %s ; Ok exits at %s" % (sorted(set(n for (_b, n) in zeroing)), oks), key="D7:reconnect-success-resets-backoff")
+    hk = ctx.fn(HKC, "D7")
+    if hk:
+        # the count is bumped once per attempt, before the reconnect (record_reconnect_attempt), and nowhere else in housekeeping
+        ws = sorted(set(a.fn.stable for a in ctx.eff.writers_of(RS, "reconnect_failure_count", ("store", "callstore", "mutborrow"))))
+        ctx.chk.ob("D7", "the failure count is written only by record_attempt / mark_success / reset_for_reconnect", set(ws) <= {RS + "::record_attempt", RS + "::mark_success", CONN + "::reset_for_reconnect"},
+                   "%s" % ws, key="D7:failure-count-writers")
+
+
+RULES = [d7_backoff_does_not_accumulate, d1_who_tears_down, d2_liveness_predicate, d3_retry_spacing, d4_clean_rejoin, d5_survivors, d6_configured_timeout_applied]
 
 
 def run(ctx):
-    ctx.chk.not_decided = ["'connected again within 30 s', 'retries continue indefinitely', 'surviving uplinks keep carrying': timed liveness over fault schedules "
-                           "involving the receiver and tokio timers",
+    ctx.chk.not_decided = ["'connected again within 30 s' beyond its structural precondition D7 (short retry gap while the socket can be re-created), 'retries continue indefinitely', "
+                           "'surviving uplinks keep carrying': timed liveness over fault schedules involving the receiver and tokio timers",
                            "REG_ERR clears last_received (an explicit rejection by the receiver): reported, not flagged"]
     ctx.run_rules(RULES)
